@@ -1,4 +1,5 @@
 """C13 — conversion depends on what the package says, not on how it spells it."""
+import common
 import io
 import random
 import xml.dom.minidom
@@ -97,7 +98,7 @@ def sort_attrs(j):
 
 def run(out, tier, seed, model_ok):
     rng = random.Random(seed * 7919 + 13)
-    n = 500 if tier == "quick" else 6000
+    n = common.deepen(500 if tier == "quick" else 6000)
     cs = A.gen_cases(seed, n, PROFILE, sm=dict(hid=0), tag="c13-")
     run_ = A.ApiRun(out, "C13", model_ok, lambda r, c: {"value": r["value"], "messages": r.get("messages"), "raw": r.get("raw")}, name="canonical")
     run_.run(cs, nontrivial=lambda c, r: True)
